@@ -1037,6 +1037,14 @@ func TestPropRPCReadsFollowTheChain(t *testing.T) {
 					c.Violation("valid-block-rejected", "%v", err)
 				}
 			}
+			// the same handlers (and the same Blockchain with whatever it caches) serve queries BEFORE the reorg too: half of the
+			// cases run the whole sweep against the first fork while it is canonical, then revert it
+			eps := newEndpoints(nd)
+			if n1 > 0 && rapid.Bool().Draw(rt, "sweepBeforeReorg") {
+				w1 := &world{c: c, u: u, n: nd, chain: f1.Blocks, eps: eps}
+				w1.sweep(rt)
+				c.Label("queried-before-the-reorg")
+			}
 			for i := 0; i < n1; i++ {
 				if err := nd.BC.RevertHead(); err != nil {
 					c.Violation("revert-failed", "%v", err)
@@ -1069,7 +1077,7 @@ func TestPropRPCReadsFollowTheChain(t *testing.T) {
 				}
 			}
 			c.Fp("%v p%d f1:%d f2:%d l1:%v head:%s", newState, np, n1, n2, w.l1, f2.Blocks[head].B.Hash.String())
-			w.eps = newEndpoints(nd)
+			w.eps = eps
 			w.sweep(rt)
 			c.Sample(func() any {
 				return map[string]any{"backend": nd.Backend(), "chain_len": len(w.chain), "reverted": len(w.reverted), "l1": fmt.Sprint(w.l1)}
